@@ -5,9 +5,9 @@ import TrustVerif.Lemmas.C11Frame
 # C11 — lemmas: what `decode` returns is well-formed, hence round-trips
 
 `OutWf P dec`: every result of a decoder satisfies `P`.  Proved for every element codec with the same
-automated pattern as `LenExact`, lifted to sections and to the whole container.  The decoder does
-not enforce one clause of `Module.wf`: that the first type entry starts right behind the offset
-table (`Module.firstOffsetsOk`); every other offset is forced (`decTypeEntriesAt_offsets`).
+automated pattern as `LenExact`, lifted to sections and to the whole container.  The canonical
+type offsets follow from the decoder's checks: the first entry starts right behind the offset table
+(e5dfde6, `decTypeTable_first`), every other offset is forced (`decTypeEntriesAt_offsets`).
 -/
 set_option linter.unusedSimpArgs false
 
@@ -336,12 +336,14 @@ theorem decTypeEntriesAt_out (payload : Bytes) (base : Nat) :
             · cases hte
             · split at hte
               · cases hte
-              · next e left heq =>
-                split at hte
+              · split at hte
                 · cases hte
-                · simp only [Except.ok.injEq] at hte
-                  subst hte
-                  exact outWf_typeEntry _ _ _ heq
+                · next e left heq =>
+                  split at hte
+                  · cases hte
+                  · simp only [Except.ok.injEq] at hte
+                    subst hte
+                    exact outWf_typeEntry _ _ _ heq
         intro e he
         simp only [List.mem_cons] at he
         cases he with
@@ -425,6 +427,18 @@ theorem decTypeEntriesAt_offsets (payload : Bytes) (base : Nat) (hp : payload.le
           have := ih (some o1) es' hrest o2 rest2 rfl
           rw [← this]
 
+/-- the decoder's only freedom: where the first type entry starts.  `true` when every type table of
+the module has no entries or its first offset is `4 + 4·count` (right behind the offset table). -/
+def sectionFirstOffsetOk (minor : UInt16) : SectionData → Bool
+  | .typeTable t =>
+    if minor ≥ 1 then
+      match t.offsets with
+      | [] => true
+      | o :: _ => o.toNat == 4 + 4 * t.entries.length
+    else true
+  | _ => true
+
+
 theorem decTypeTable_canonical_of_first (minor : UInt16) (payload : Bytes) (t : TypeTable)
     (hp : payload.length < 4294967296) (h : decTypeTable minor payload = .ok t)
     (hf : sectionFirstOffsetOk minor (.typeTable t) = true) :
@@ -469,18 +483,54 @@ theorem decTypeTable_canonical_of_first (minor : UInt16) (payload : Bytes) (t : 
         rfl
 
 
-/-- **What `decode_section_data` returns is well-formed** (up to the canonical-offsets clause of the
-type table, which the decoder does not enforce). -/
+
+/-- since e5dfde6 the decoder enforces the first offset -/
+theorem decTypeTable_first (minor : UInt16) (payload : Bytes) (t : TypeTable)
+    (h : decTypeTable minor payload = .ok t) : sectionFirstOffsetOk minor (.typeTable t) = true := by
+  unfold decTypeTable at h
+  split at h
+  · cases h
+  · next count r hc =>
+    have h4 := readU32_len hc
+    by_cases hm : minor ≥ 1
+    · simp only [hm, if_true] at h
+      split at h
+      · cases h
+      · next offsets r' ho =>
+        obtain ⟨hol, hob⟩ := lenExact_readN lenExact_u32 _ _ _ _ ho
+        have hfl := flatMap_encU32_length offsets
+        split at h
+        · cases h
+        · next entries he =>
+          simp only [Except.ok.injEq] at h
+          subst h
+          obtain ⟨hel, _⟩ := decTypeEntriesAt_len _ _ _ _ _ he
+          simp only [sectionFirstOffsetOk, hm, if_true]
+          cases offsets with
+          | nil => rfl
+          | cons o rest =>
+            simp only [decTypeEntriesAt] at he
+            split at he
+            · cases he
+            · next entry hte =>
+              have := typeEntryAt_first hte
+              simp only [beq_iff_eq]
+              simp only [List.length_cons] at hel hol hfl hob
+              rw [this, hel]
+              omega
+    · simp only [sectionFirstOffsetOk, hm, if_false]
+
+/-- **What `decode_section_data` returns is well-formed** (payload shorter than 4 GiB). -/
 theorem decodeSectionData_out (minor id : UInt16) (payload : Bytes) (d : SectionData)
     (hp : payload.length < 4294967296) (h : decodeSectionData minor id payload = .ok d) :
-    idMatches id d = true ∧ (sectionFirstOffsetOk minor d = true → d.wf minor = true) := by
+    idMatches id d = true ∧ d.wf minor = true := by
   unfold decodeSectionData at h
   by_cases h0 : id = idStringTable
   · rw [if_pos h0] at h
     obtain ⟨x, hx, hd⟩ := except_map_ok h
     subst hd
     obtain ⟨w1, w2⟩ := runSection_readVec_out (outWf_string minor) hx
-    refine ⟨by simp [idMatches, h0], fun _ => ?_⟩
+    refine ⟨by simp [idMatches, h0], ?_⟩
     simp only [SectionData.wf, Bool.and_eq_true, List.all_eq_true]
     exact ⟨w1, w2⟩
   rw [if_neg h0] at h
@@ -489,7 +539,7 @@ theorem decodeSectionData_out (minor id : UInt16) (payload : Bytes) (d : Section
     obtain ⟨x, hx, hd⟩ := except_map_ok h
     subst hd
     obtain ⟨w1, w2⟩ := runSection_readVec_out (outWf_string minor) hx
-    refine ⟨by simp [idMatches, h1], fun _ => ?_⟩
+    refine ⟨by simp [idMatches, h1], ?_⟩
     simp only [SectionData.wf, Bool.and_eq_true, List.all_eq_true]
     exact ⟨w1, w2⟩
   rw [if_neg h1] at h
@@ -499,8 +549,7 @@ theorem decodeSectionData_out (minor id : UInt16) (payload : Bytes) (d : Section
     subst hd
     obtain ⟨w1, w2, w3⟩ := decTypeTable_out minor payload x hx
     refine ⟨by simp [idMatches, h2], ?_⟩
-    intro hf
-    have hc := decTypeTable_canonical_of_first minor payload x hp hx hf
+    have hc := decTypeTable_canonical_of_first minor payload x hp hx (decTypeTable_first minor payload x hx)
     simp only [sectionOffsetsCanonical, decide_eq_true_eq] at hc
     simp only [SectionData.wf, TypeTable.wf, Bool.and_eq_true, List.all_eq_true, decide_eq_true_eq]
     exact ⟨⟨w1, w2⟩, hc⟩
@@ -510,7 +559,7 @@ theorem decodeSectionData_out (minor id : UInt16) (payload : Bytes) (d : Section
     obtain ⟨x, hx, hd⟩ := except_map_ok h
     subst hd
     obtain ⟨w1, w2⟩ := runSection_readVec_out outWf_const hx
-    refine ⟨by simp [idMatches, h3], fun _ => ?_⟩
+    refine ⟨by simp [idMatches, h3], ?_⟩
     simp only [SectionData.wf, Bool.and_eq_true, List.all_eq_true]
     exact ⟨w1, w2⟩
   rw [if_neg h3] at h
@@ -519,7 +568,7 @@ theorem decodeSectionData_out (minor id : UInt16) (payload : Bytes) (d : Section
     obtain ⟨x, hx, hd⟩ := except_map_ok h
     subst hd
     obtain ⟨w1, w2⟩ := runSection_readVec_out outWf_ref hx
-    refine ⟨by simp [idMatches, h4], fun _ => ?_⟩
+    refine ⟨by simp [idMatches, h4], ?_⟩
     simp only [SectionData.wf, Bool.and_eq_true, List.all_eq_true]
     exact ⟨w1, w2⟩
   rw [if_neg h4] at h
@@ -528,21 +577,21 @@ theorem decodeSectionData_out (minor id : UInt16) (payload : Bytes) (d : Section
     obtain ⟨x, hx, hd⟩ := except_map_ok h
     subst hd
     obtain ⟨w1, w2⟩ := runSection_readVec_out (outWf_pou minor) hx
-    refine ⟨by simp [idMatches, h5], fun _ => ?_⟩
+    refine ⟨by simp [idMatches, h5], ?_⟩
     simp only [SectionData.wf, Bool.and_eq_true, List.all_eq_true]
     exact ⟨w1, w2⟩
   rw [if_neg h5] at h
   by_cases h6 : id = idPouBodies
   · rw [if_pos h6] at h
     simp only [Except.ok.injEq] at h; subst h
-    exact ⟨by simp [idMatches, h6], fun _ => rfl⟩
+    exact ⟨by simp [idMatches, h6], rfl⟩
   rw [if_neg h6] at h
   by_cases h7 : id = idResourceMeta
   · rw [if_pos h7] at h
     obtain ⟨x, hx, hd⟩ := except_map_ok h
     subst hd
     obtain ⟨w1, w2⟩ := runSection_readVec_out outWf_resource hx
-    refine ⟨by simp [idMatches, h7], fun _ => ?_⟩
+    refine ⟨by simp [idMatches, h7], ?_⟩
     simp only [SectionData.wf, Bool.and_eq_true, List.all_eq_true]
     exact ⟨w1, w2⟩
   rw [if_neg h7] at h
@@ -551,7 +600,7 @@ theorem decodeSectionData_out (minor id : UInt16) (payload : Bytes) (d : Section
     obtain ⟨x, hx, hd⟩ := except_map_ok h
     subst hd
     obtain ⟨w1, w2⟩ := runSection_readVec_out outWf_ioBinding hx
-    refine ⟨by simp [idMatches, h8], fun _ => ?_⟩
+    refine ⟨by simp [idMatches, h8], ?_⟩
     simp only [SectionData.wf, Bool.and_eq_true, List.all_eq_true]
     exact ⟨w1, w2⟩
   rw [if_neg h8] at h
@@ -560,7 +609,7 @@ theorem decodeSectionData_out (minor id : UInt16) (payload : Bytes) (d : Section
     obtain ⟨x, hx, hd⟩ := except_map_ok h
     subst hd
     obtain ⟨w1, w2⟩ := runSection_readVec_out (outWf_true _) hx
-    refine ⟨by simp [idMatches, h9], fun _ => ?_⟩
+    refine ⟨by simp [idMatches, h9], ?_⟩
     simp only [SectionData.wf]
     exact w1
   rw [if_neg h9] at h
@@ -569,7 +618,7 @@ theorem decodeSectionData_out (minor id : UInt16) (payload : Bytes) (d : Section
     obtain ⟨x, hx, hd⟩ := except_map_ok h
     subst hd
     obtain ⟨w1, w2⟩ := runSection_readVec_out outWf_varMetaEntry hx
-    refine ⟨by simp [idMatches, h10], fun _ => ?_⟩
+    refine ⟨by simp [idMatches, h10], ?_⟩
     simp only [SectionData.wf, Bool.and_eq_true, List.all_eq_true]
     exact ⟨w1, w2⟩
   rw [if_neg h10] at h
@@ -578,12 +627,12 @@ theorem decodeSectionData_out (minor id : UInt16) (payload : Bytes) (d : Section
     obtain ⟨x, hx, hd⟩ := except_map_ok h
     subst hd
     obtain ⟨w1, w2⟩ := runSection_readVec_out (outWf_true _) hx
-    refine ⟨by simp [idMatches, h11], fun _ => ?_⟩
+    refine ⟨by simp [idMatches, h11], ?_⟩
     simp only [SectionData.wf]
     exact w1
   rw [if_neg h11] at h
   simp only [Except.ok.injEq] at h; subst h
-  refine ⟨?_, fun _ => rfl⟩
+  refine ⟨?_, rfl⟩
   simp only [idMatches, Bool.not_eq_true', decide_eq_false_iff_not]
   intro hr
   have g0 : id.toNat ≠ (idStringTable).toNat := fun hh => h0 (UInt16.toNat_inj.mp hh)
@@ -616,7 +665,7 @@ theorem decodeSectionData_out (minor id : UInt16) (payload : Bytes) (d : Section
 theorem decodeSections_out (minor : UInt16) (bytes : Bytes) (hb : bytes.length < 4294967296) :
     ∀ (es : List SectionEntry) (secs : List Section), decodeSections minor bytes es = .ok secs →
     secs.length = es.length ∧
-      ∀ s ∈ secs, idMatches s.id s.data = true ∧ (sectionFirstOffsetOk minor s.data = true → s.data.wf minor = true) := by
+      ∀ s ∈ secs, idMatches s.id s.data = true ∧ s.data.wf minor = true := by
   intro es
   induction es with
   | nil => intro secs h; simp [decodeSections] at h; subst h; simp
@@ -656,12 +705,10 @@ theorem checkHeader_major {crc : Bytes → UInt32} {bytes : Bytes} {h : Header}
   repeat' split at hc
   all_goals first | (cases hc; done) | (rename_i hm; simpa using hm)
 
-/-- **What `decode` returns is well-formed**, provided its type tables are laid out canonically (no
-stray bytes in front of the first entry: `Module.firstOffsetsOk` — the one thing the decoder accepts and `encode` never
-writes) and the container is not within 1 MiB of 4 GiB (so that the re-encoded layout fits `u32`
-offsets even after padding). -/
+/-- **What `decode` returns is well-formed**, provided the container is not within 1 MiB of 4 GiB (so
+that the re-encoded layout fits `u32` offsets even after padding). -/
 theorem decode_wf (crc : Bytes → UInt32) (bytes : Bytes) (m : Module) (h : decode crc bytes = .ok m)
-    (hcan : m.firstOffsetsOk = true) (hsz : bytes.length + 1048576 < 4294967296) : m.wf = true := by
+    (hsz : bytes.length + 1048576 < 4294967296) : m.wf = true := by
   have hsize := decode_size crc bytes m h
   unfold decode at h
   split at h
@@ -686,12 +733,11 @@ theorem decode_wf (crc : Bytes → UInt32) (bytes : Bytes) (m : Module) (h : dec
             have hn := (readN_out (outWf_true decSectionEntry) _ _ _ _ hread).1
             have hcount := hdr.sectionCount.toNat_lt
             have hmaj := checkHeader_major hck
-            simp only [Module.firstOffsetsOk, List.all_eq_true] at hcan
             simp only [Module.wf, Bool.and_eq_true, List.all_eq_true, beq_iff_eq, decide_eq_true_eq,
               Section.wf]
             refine ⟨⟨⟨hmaj, by rw [hl, hn]; simpa using hcount⟩, ?_⟩, ?_⟩
             · intro s hs
-              exact ⟨(hall s hs).1, (hall s hs).2 (hcan s hs)⟩
+              exact ⟨(hall s hs).1, (hall s hs).2⟩
             · rw [lenOk_iff]
               have h1 := sum_align4_le (sections.map fun s => (encodeSectionData hdr.minor s.data).length)
               have h2 := align4_lt (headerSize + sections.length * sectionEntrySize)
@@ -701,13 +747,12 @@ theorem decode_wf (crc : Bytes → UInt32) (bytes : Bytes) (m : Module) (h : dec
               simp only [encodedSize, headerSize, sectionEntrySize] at h2 h4 ⊢
               omega
 
-/-- **Round trip from arbitrary bytes.**  Whatever bytes decode to (canonical type tables, container
-below 4 GiB − 1 MiB), encoding and decoding again gives the same module. -/
+/-- **Round trip from arbitrary bytes.**  Whatever bytes decode to (container below 4 GiB − 1 MiB),
+encoding and decoding again gives the same module. -/
 theorem decode_encode_decode (crc : Bytes → UInt32) (bytes : Bytes) (m : Module)
-    (h : decode crc bytes = .ok m) (hcan : m.firstOffsetsOk = true)
-    (hsz : bytes.length + 1048576 < 4294967296) :
+    (h : decode crc bytes = .ok m) (hsz : bytes.length + 1048576 < 4294967296) :
     ∃ b', encode crc m = .ok b' ∧ decode crc b' = .ok m :=
-  decode_encode crc m (decode_wf crc bytes m h hcan hsz)
+  decode_encode crc m (decode_wf crc bytes m h hsz)
 
 
 
